@@ -1213,7 +1213,10 @@ class Interp:
             else:
                 raise exc("TypeError")
         if a.vararg is not None:
-            values[a.vararg.arg] = SList(extra, "tuple")
+            if a.vararg.arg in kw and not extra and isinstance(kw[a.vararg.arg], SList):
+                values[a.vararg.arg] = kw.pop(a.vararg.arg)      # (verification harness passes *args by name)
+            else:
+                values[a.vararg.arg] = SList(extra, "tuple")
         if a.kwarg is not None:
             values[a.kwarg.arg] = SDict(kw)
         elif kw:
@@ -1259,7 +1262,8 @@ class Interp:
         values = self.bind_args(fv, args, kwargs, env)
         if key and not as_root and self.modular and key in self.contracts and key != self.root:
             ctr = self.contracts[key]
-            if ctr.usable_modularly:
+            if ctr.usable_modularly and (ctr.returns is not None or ctr.result is not None or ctr.yields_item is not None
+                                         or not ctr.ensures):
                 from .spec import apply_contract
                 self.used_contracts.add(key)
                 return apply_contract(self, ctr, fv, values)
